@@ -1,14 +1,14 @@
----- MODULE MC_C15_quick_a_norm2 ----
+---- MODULE MC_C15_quick_d_one_var ----
 EXTENDS CircuitSys
-c_Dom == <<2, 3>>
+c_Dom == <<3>>
 c_KSet == {1, 2}
 c_MaxK == 8
 c_MaxL == 5
-c_MaxIn == 2
+c_MaxIn == 3
 c_InKindSeq == <<"catp">>
-c_InnerKinds == {"had", "kron", "mix", "sum"}
-c_MaxAr == 2
-c_FreeOrder == FALSE
+c_InnerKinds == {"mix", "sum"}
+c_MaxAr == 3
+c_FreeOrder == TRUE
 c_MaxOuts == 1
 c_MaxBases == 1
 c_MaxOps == 0
@@ -27,7 +27,7 @@ c_GradMod == 0
 c_QueryOn == FALSE
 c_J == 1
 c_EmitOps == {0}
-c_EmitMod == 12
+c_EmitMod == 8
 c_EmitRes == 0
 c_EmitSmall == 3
 c_EmitFilter == "all"
